@@ -564,7 +564,11 @@ func init() {
 			return contains(d, "foreignpanic")
 		},
 		run: genericRun(stagePlan{
-			covers: []coverPlan{randCover("badinput", tweak(small, func(f *fam.Features) { f.PInvalid = 0.9; f.Ctors = 2 }), allOpts, 60, 400, 1)},
+			covers: []coverPlan{
+				randCover("badinput", tweak(small, func(f *fam.Features) { f.PInvalid = 0.9; f.Ctors = 2 }), allOpts, 60, 400, 1),
+				// pictures of failures on every path: feeders, consumers and decorators of a group
+				structCover("groups-failing", fam.Groups, rec, false, 12, 60, 1, 1),
+			},
 			traces: stdTraces("badinput", tweak(medium, func(f *fam.Features) { f.PInvalid = 0.9 }), 0.1, allOpts),
 			sig:    true})})
 
